@@ -169,6 +169,7 @@ func StructToMap(data any) map[string]any {
 	}
 
 	rt := rv.Type()
+	byName := map[string]any{}
 	for i := range rt.NumField() {
 		f := rt.Field(i)
 		// Only export fields
@@ -195,6 +196,13 @@ func StructToMap(data any) map[string]any {
 		}
 
 		result[tagName] = fieldValue
+		if tagName != f.Name {
+			byName[f.Name] = fieldValue
+		}
+	}
+	// A field is also addressed by its Go name, which wins over another field's tag (as in ResolveValue)
+	for name, value := range byName {
+		result[name] = value
 	}
 	return result
 }
@@ -220,6 +228,7 @@ func PopulateStructFields(m map[string]any, data any) {
 	}
 
 	rt := rv.Type()
+	byName := map[string]any{}
 	for i := range rt.NumField() {
 		f := rt.Field(i)
 		// Only export fields
@@ -247,6 +256,13 @@ func PopulateStructFields(m map[string]any, data any) {
 
 		// Add the field itself (for path resolution like item.inStock)
 		m[tagName] = fieldValue
+		if tagName != f.Name {
+			byName[f.Name] = fieldValue
+		}
+	}
+	// A field is also addressed by its Go name, which wins over another field's tag (as in ResolveValue)
+	for name, value := range byName {
+		m[name] = value
 	}
 }
 
